@@ -37,7 +37,7 @@ theorem c18_fill_in_order (f : Bytes) (r : Nat) (w : Window) (h : WRead f r w) (
     ∃ w' fl, w.fill = (w', .ok fl) ∧ WRead f r w' ∧ fl = !w'.eof ∧
       w'.size = w.size ∧ w'.chunk = w.chunk ∧ w.elems.length ≤ w'.elems.length ∧
       (∀ i, i < w.elems.length → w'.elems[i]? = w.elems[i]?) := by
-  obtain ⟨w', fl, hfill, hinv, hgrow⟩ := fill_ok (c := { b := w.chunk, w := w.size, timeout := 0, rep := 1 }) hc hs h.toSInv
+  obtain ⟨w', fl, hfill, hinv, hgrow, _, _⟩ := fill_ok (c := { b := w.chunk, w := w.size, timeout := 0, rep := 1 }) hc hs h.toSInv
   simp only at hfill hgrow
   have hsz : w'.size = w.size := hinv.size_eq
   have hch : w'.chunk = w.chunk := hinv.chunk_eq
